@@ -6,5 +6,6 @@ CONSTANTS
   RingSize = 2
   STRICT_REMOVE = TRUE
   WatchFile = TRUE
+  HELD = FALSE
 INVARIANTS InOrder Correlated NoLoss
 CHECK_DEADLOCK FALSE
